@@ -95,7 +95,10 @@ def complete(sd, st):
 def sem(bnet):
     sd = make_sd({"bnet": bnet})
     ni = common.NetInfo(sd.network)
-    o = Oracle(ni).run()
+    o = Oracle(ni)
+    o.ask("tt", "TT")
+    o.ask("states", "STATES")
+    o.run()
     return ni, o
 
 
@@ -117,6 +120,24 @@ def run_product(case):
     except RuntimeError:
         return {"fails": [], "diffs": [], "tags": ["limit-error"], "nontrivial": False}
     fails = []
+    diffs = []
+    # the union text denotes Lean's `prodNet` of the parts (theorems attr_prodNet, attr_prodNet_split):
+    # every update function of the union reads only its own part and agrees with the part's function
+    _, ou = sem(case["a"] + "\n" + case["b"])
+    if ni.names == nia.names + nib.names:
+        ust = ou.get("states").split()
+        utt = ou.get("tt").split()
+        cola = {st: k for k, st in enumerate(oa.get("states").split())}
+        colb = {st: k for k, st in enumerate(ob.get("states").split())}
+        tta, ttb = oa.get("tt").split(), ob.get("tt").split()
+        na = len(nia.names)
+        for i in range(len(ni.names)):
+            want = "".join((tta[i][cola[st[:na]]] if i < na else ttb[i - na][colb[st[na:]]]) for st in ust)
+            if utt[i] != want:
+                diffs.append({"stream": "ORACLE union text vs Lean prodNet of the parts", "variable": ni.names[i], "impl": utt[i], "model": want})
+                break
+    else:
+        diffs.append({"stream": "ORACLE union text vs Lean prodNet of the parts", "detail": f"variable order {ni.names}"})
     def comb(sa, sb):
         d = {}
         d.update({nia.names[i]: c for i, c in enumerate(sa)})
@@ -137,7 +158,7 @@ def run_product(case):
             fails.append({"kind": "product-attractors", "sig": {"strategy": case["strategy"]}, "detail":
                           f"union has {len(got_att)} attractors (sizes {sorted(len(a) for a in got_att)[:8]}), products: {len(want_att)} (sizes {sorted(len(a) for a in want_att)[:8]})"})
     nontriv = (len(oa.atts) >= 2 and len(ob.atts) >= 2) or any(len(a) > 1 for a in want_att)
-    return {"fails": fails, "diffs": [], "tags": ["product", "strategy:" + case["strategy"]], "nontrivial": nontriv, "sig": common.case_hash(case)}
+    return {"fails": fails, "diffs": diffs, "tags": ["product", "prodNet-tie", "strategy:" + case["strategy"]], "nontrivial": nontriv, "sig": common.case_hash(case)}
 
 
 def absdiag(sd, nodes=None):
